@@ -477,14 +477,6 @@ def enc_str(s):
     return vlib.strlit(s)
 
 
-def enc_idx(idx):
-    n = 1
-    for i in idx:
-        assert 0 <= i < 65536
-        n = n * 65536 + i
-    return n
-
-
 def enc_list(ss):
     return "[" + "; ".join(enc_str(s) for s in ss) + "]"
 
@@ -530,8 +522,14 @@ def same_code(py, cq):
 
 
 def check(run, replay):
-    # ---- 1. translator, build, proofs (serialised: the translator rewrites coq/Gen/*.v) -----------------------
+    # one C12 run at a time: the translator rewrites coq/Gen/*.v, which the case files of this run load later
     with vlib._Lock("c12.lock"):
+        _check(run, replay)
+
+
+def _check(run, replay):
+    # ---- 1. translator, build, proofs ----------------------------------------------------------------------
+    if True:   # (block kept for the indentation of the serialised section)
         tr = None
         try:
             tr = TP.translate(vlib.REPO)
@@ -581,9 +579,9 @@ def check(run, replay):
                     exprs_of.setdefault(r["name"], (r["formula"], r["expr"]))
 
     # ---- 2. cases, implementation ------------------------------------------------------------------------------
-    if replay is not None:
+    if replay is not None and replay.get("case"):
         cases = [replay["case"]]
-    else:
+    else:      # (a replay of a broken obligation without input re-runs the whole check)
         cases = load_corpus("C12")
         n = 130 if run.tier == "quick" else 1500
         for _ in range(n):
